@@ -228,10 +228,12 @@ class OnlineVariance(object):
         
 
         mean_old = self.mean
-        try:
-            self.mean = mean_old + (weight / self.wcount) * (value - mean_old)
-        except ZeroDivisionError:
+        if self.wcount == 0:
+            # Only zero-weight samples so far (numpy floats give nan for
+            # 0/0 instead of raising ZeroDivisionError)
             self.mean = value*0.0
+        else:
+            self.mean = mean_old + (weight / self.wcount) * (value - mean_old)
         self.M2 += weight * (value - mean_old) * (value - self.mean)
 
     @property
